@@ -311,10 +311,10 @@ def refp_specs():
     yaw = lambda e: e.param[0]
     for nm, mk in (("rdd2.position_control_p", lambda: m.derive_position_control()["position_control"]),
                    ("loglinear.se23_position_control_p", lambda: ml.derive_outerloop_control()["se23_position_control"])):
-        S.append(probed(nm, mk, [(ca, "norm_2", "arg", 1, "T"), (g3.SO3EulerB321, "from_Quat", yaw, 0, "yt"),
+        S.append(probed(nm, mk, [(ca, "norm_2", "arg", 0, "P"), (ca, "norm_2", "arg", 1, "T"), (g3.SO3EulerB321, "from_Quat", yaw, 0, "yt"),
                                  (ca, "cross", "arg", 0, "zB"), (ca, "cross", "arg", 1, "yB"),
                                  (g3.SO3Quat, "from_Matrix", "arg", 0, "Rd")],
-                        cuts=("T", "yt", "yB", "Rd"), only=("nT", "qr_wb", "T", "yt", "zB", "yB", "Rd")))
+                        cuts=("P", "T", "yt", "yB", "Rd"), only=("nT", "qr_wb", "z_i_2", "P", "T", "yt", "zB", "yB", "Rd")))
     # flatness references: thrust vector, body axes and the frame exposed
     S.append(probed("bezier.f_ref_p", lambda: bz.derive_ref()["f_ref"],
                     [(ca, "norm_2", "arg", 0, "thrust"), (ca, "cross", "arg", 0, "zb"), (ca, "cross", "arg", 1, "yb"),
